@@ -130,3 +130,102 @@ def run(S):
     S.prove('C16.c.bounded_by_capacity', E, [kind == V('Total')], z3.And(rv.t <= tot_c, rv.t <= tot_m),
             'for a channel of known capacity the usable maximum never exceeds the capacity nor htlc_maximum_msat', [b])
     S.no_panic('C16.c.nopanic', E, [], 'max_htlc_from_capacity is total', [b])
+
+
+def path_fees(S, D):
+    """C16.d: PaymentPath::update_value_and_recompute_fees - the function that fixes every hop's fee_msat of a
+    candidate path (called when a path is built, when its value is reduced to remove an overpayment and when two
+    equal paths are combined). Whole function, N = 1..3 hops (loop fully unrolled), hop policies and htlc minima
+    symbolic (CandidateRouteHop::fees / htlc_minimum_msat stubbed per hop)."""
+    import re
+    for N in ((1, 2, 3) if S.tier == 'quick' else (1, 2, 3, 4)):
+        tag = 'C16.d.n%d' % N
+        ids = [tag + k for k in ('.paid_policy_fee', '.htlc_minimum', '.returns_delivered', '.nopanic', '.witness', '.validate')]
+        if all(S._skip(o) for o in ids):
+            continue
+        f = S.fn('update_value_and_recompute_fees')
+        E = S.engine(unwind=N + 1)
+        mem = {}
+        PB = D.struct_fields('PathBuildingHop')
+        RF = D.struct_fields('RoutingFees')
+        hops = [X.Tup([X.Adt('PathBuildingHop', {}, base='hop%d' % i), X.Opaque('features')]) for i in range(N)]
+        pp = X.Adt('PaymentPath', {0: X.Seq(hops, N, '(PathBuildingHop, NodeFeatures)')})
+        cp = E.new_cell()
+        mem[cp] = pp
+        hmin = [E.sym('hop%d.htlc_min' % i, 'u64') for i in range(N)]
+        fbase = [E.sym('hop%d.base' % i, 'u32') for i in range(N)]
+        fprop = [E.sym('hop%d.prop' % i, 'u32') for i in range(N)]
+
+        def which(v, mem_):
+            while isinstance(v, X.Ref):
+                ks = [st[1] for st in v.path if st[0] == 'i']
+                if ks:
+                    return ks[-1]
+                v = E.read_path(mem_[v.cell], v.path, mem_, True, 'hop')
+            raise X.Unsupported('cannot tell which hop %r belongs to' % (v,))
+
+        def sel(lst, k):
+            if isinstance(k, int):
+                return lst[k]
+            r = lst[-1]
+            for j in range(len(lst) - 2, -1, -1):
+                r = E.merge(k == j, lst[j], r)
+            return r
+
+        def h_rev(E_, m, func, argv, guard, mem_, dty, caller):
+            lo = E.read_path(argv[0], (('f', 0, 'usize'),), mem_, guard, 'rev').t
+            hi = E.read_path(argv[0], (('f', 1, 'usize'),), mem_, guard, 'rev').t
+            if not (isinstance(lo, int) and isinstance(hi, int)):
+                raise X.Unsupported('symbolic reversed range')
+            return X.It('revrange', extra=(lo, hi))
+
+        def h_rev_next(E_, m, func, argv, guard, mem_, dty, caller):
+            r = argv[0]
+            it = E.read_path(mem_[r.cell], r.path, mem_, guard, 'next')
+            lo, hi = it.extra
+            if hi <= lo:
+                return X.En('Option', 0, {})
+            mem_[r.cell] = E.write_path(mem_[r.cell], r.path, X.It('revrange', extra=(lo, hi - 1)), mem_, guard, 'next')
+            return X.En('Option', 1, {1: [X.I(hi - 1, 'usize')]})
+        for rx, h in [(r'CandidateRouteHop::<.*>::htlc_minimum_msat$', lambda E_, m, func, argv, guard, mem_, dty, caller: sel(hmin, which(argv[0], mem_))),
+                      (r'CandidateRouteHop::<.*>::fees$', lambda E_, m, func, argv, guard, mem_, dty, caller: X.Adt('RoutingFees', {
+                          RF.index('base_msat'): sel(fbase, which(argv[0], mem_)), RF.index('proportional_millionths'): sel(fprop, which(argv[0], mem_))})),
+                      (r'Range<usize> as Iterator>::rev$', h_rev),
+                      (r'Rev<(?:std::ops::)?Range<usize>> as Iterator>::next$', h_rev_next)]:
+            E.models.insert(0, (re.compile(rx), h))
+        value = E.sym('value', 'u64')
+        rv = S.call(E, f, [X.Ref(cp), value], mem)
+        ret = S.ret_guard
+        out = mem[cp]
+        rdh = lambda v, i, nm: E.read_path(v, (('f', 0, 'Vec'), ('i', i), ('f', 0, 'PathBuildingHop'), ('f', PB.index(nm), 'u64')), mem, True, 'spec').t
+        fee = [rdh(out, i, 'fee_msat') for i in range(N)]
+        hu = [rdh(pp, i, 'hop_use_fee_msat') for i in range(N)]
+        pen = [rdh(pp, i, 'path_penalty_msat') for i in range(N)]
+        last = N - 1
+        A = [None] * N                      # amount carried by the channel of hop j = everything paid from hop j on
+        A[last] = fee[last]
+        for j in range(N - 2, -1, -1):
+            A[j] = fee[j] + A[j + 1]
+        # bounds under which no fee computation can overflow u64 (the function relies on its callers for that)
+        pre = [value.t >= 1, value.t <= 1 << 40] + [h.t <= 1 << 40 for h in hmin] + [p.t <= 1 << 19 for p in fprop] + [x <= 1 << 40 for x in hu + pen]
+        policy_fee = lambda a, j: fbase[j].t + (a * fprop[j].t) / 1000000
+        panic = z3.Or(*[X.zbool(p[0]) for p in E.panics]) if E.panics else False
+        flat = [value.t]
+        for i in range(N):
+            flat += [fbase[i].t, fprop[i].t, hmin[i].t, hu[i]]
+
+        def line_fn(v, N=N):
+            return ' '.join(str(x) for x in [v[0], N] + list(v[1:]))
+        b = Binding('recompute_fees_probe', flat, [rv.t] + fee, panic=panic, line_fn=line_fn,
+                    domain=[(1, 1 << 40)] + [(0, U32), (0, 1 << 19), (0, 1 << 40), (0, 1 << 40)] * N, interesting=[1000000, 1 << 40])
+        if N > 1:
+            S.prove(ids[0], E, pre + [ret], z3.And(*[fee[j] >= policy_fee(A[j + 1], j + 1) for j in range(N - 1)]),
+                    'every forwarding node is paid at least the fee its advertised policy requires for the amount it actually forwards: fee_msat[j] >= base + prop * (amount carried by the next channel) / 10^6, where that amount is everything paid from the next hop on (including what the final hop overpays to meet its htlc_minimum)',
+                    [b], bounds='%d hops, value and htlc minima <= 2^40 msat, proportional fees <= 2^19 ppm, any base fee' % N)
+        S.prove(ids[1], E, pre + [ret], z3.And(*[A[j] >= hmin[j].t for j in range(N)]),
+                'every hop carries at least its channel\'s htlc_minimum_msat', [b], bounds='%d hops' % N)
+        S.prove(ids[2], E, pre + [ret], z3.And(rv.t == A[last], A[last] >= value.t),
+                'the value reported back is what the final hop delivers, and it is at least the requested value', [b])
+        S.no_panic(ids[3], E, pre, 'no overflow, the unreachable!() after compute_fees is not reached within the bounds', [b])
+        S.witness(ids[4], E, pre + ([hmin[last].t > value.t, fprop[last].t > 0] if N > 1 else []), ret)
+        S.validate(ids[5], E, b, n=100 if S.tier == 'quick' else 400)
